@@ -192,6 +192,31 @@ theorem c11_borrowed_ref_coherent (t c v' : JVal) (p : List Step) (h : getAt t p
     getAt (setAt t p v') p = .ok v' :=
   getAt_setAt v' p t c h
 
+/-- [A] Iteration (`aws_json_const_iterate_object` / `_array`) visits the children in list order:
+all of them when the callback neither fails nor stops; exactly the first `k+1` and AWS_OP_SUCCESS
+when the callback clears `should_continue` at its k-th call; exactly the first `k+1` and AWS_OP_ERR
+when the callback fails at its k-th call. -/
+theorem c11_iterate (ms : List (Bytes × JVal)) (xs : List JVal) :
+    iterateObject (.obj ms) none none = .ok (ms, true) ∧
+    iterateArray (.arr xs) none none = .ok (xs, true) ∧
+    (∀ k, k < ms.length → iterateObject (.obj ms) (some k) none = .ok (ms.take (k + 1), true)) ∧
+    (∀ k, k < xs.length → iterateArray (.arr xs) (some k) none = .ok (xs.take (k + 1), true)) ∧
+    (∀ k, k < ms.length → iterateObject (.obj ms) none (some k) = .ok (ms.take (k + 1), false)) ∧
+    (∀ k, k < xs.length → iterateArray (.arr xs) none (some k) = .ok (xs.take (k + 1), false)) := by
+  refine ⟨by simp [iterateObject, iterateFrom_all], by simp [iterateArray, iterateFrom_all], ?_, ?_, ?_, ?_⟩
+  · intro k hk
+    have := iterateFrom_stop none ms 0 k hk (by intro j e; cases e)
+    simpa [iterateObject] using this
+  · intro k hk
+    have := iterateFrom_stop none xs 0 k hk (by intro j e; cases e)
+    simpa [iterateArray] using this
+  · intro k hk
+    have := iterateFrom_fail none ms 0 k hk (by intro j e; cases e)
+    simpa [iterateObject] using this
+  · intro k hk
+    have := iterateFrom_fail none xs 0 k hk (by intro j e; cases e)
+    simpa [iterateArray] using this
+
 /-- [B, string part] every string literal the printer emits — for ANY byte string, with any text
 after it — is an RFC 8259 `string` for the independent recogniser `Rfc` (all control characters
 escaped, quote and backslash escaped, `\u` followed by four hex digits). -/
